@@ -58,6 +58,34 @@ def run(chk) -> None:
     af = repo.fn(FIX, "apply_fixes")
     _r13a(chk, repo, af)
     _r13b(chk, repo, af)
+    chk.rule("R13c", "nested segments are validated under the same node budget as the file: the recursive apply_fixes call inside apply_fixes passes its own max_parse_nodes parameter on")
+    _r13c(chk, repo, af)
+
+
+def _r13c(chk, repo, af) -> None:
+    from ..flowutil import param_origin
+
+    cfg = cfg_of(af)
+    params = [a.arg for a in af.args.args + af.args.kwonlyargs]
+    if "max_parse_nodes" not in params:
+        chk.note("R13c: apply_fixes has no max_parse_nodes parameter; nothing to forward")
+        return
+    rec = [c for c in ast.walk(af) if isinstance(c, ast.Call) and isinstance(c.func, ast.Name) and c.func.id == af.name]
+    chk.count("R13c.recursive_calls", len(rec))
+    if not rec:
+        raise AnalysisError("R13c: apply_fixes no longer calls itself for child segments; re-confirm the anchor by hand")
+    pos = params.index("max_parse_nodes")
+    for c in rec:
+        a = next((k.value for k in c.keywords if k.arg == "max_parse_nodes"), None)
+        if a is None and len(c.args) > pos and not any(isinstance(x, ast.Starred) for x in c.args[: pos + 1]):
+            a = c.args[pos]
+        ok = a is not None and isinstance(a, ast.Name) and param_origin(cfg, a, cfg.stmt_of(c)) == "max_parse_nodes"
+        chk.require(
+            ok, "R13c", c,
+            "the recursive apply_fixes call does not pass max_parse_nodes on (the default 0 means unlimited): nested segments -- where nearly every fix is applied and validated -- are "
+            "re-parsed without the configured node budget, the fix is accepted, and the fixed text then fails to parse under the same configuration",
+            detail="apply_fixes: recursion forwards max_parse_nodes",
+        )
 
 
 # ---------------------------------------------------------------------------
@@ -461,6 +489,12 @@ def _stable(o, af) -> str:
 from ..selftest import Variant  # noqa: E402
 
 VARIANTS = [
+    Variant(
+        "nested-validation-without-the-node-budget", FIX,
+        "            fixes,\n            max_parse_depth=max_parse_depth,\n            max_parse_nodes=max_parse_nodes,\n",
+        "            fixes,\n            max_parse_depth=max_parse_depth,\n",
+        "R13c", "apply_fixes", "seeded C13-7",
+    ),
     # behaviour-preserving refactors: must stay quiet
     Variant(
         "quiet-adoption-chain-reordered", LINTER,
